@@ -9,7 +9,7 @@ use serde::{Deserialize, Serialize};
 use serde_json::{json, Value as Json};
 use std::cell::RefCell;
 use std::collections::HashMap;
-use vcommon::pool::{draw_item, twin_with_other_format, Item};
+use vcommon::pool::{draw_item, sibling_of, twin_with_other_format, Item};
 use vcommon::Rng;
 
 pub struct C05H;
@@ -191,6 +191,9 @@ fn draw_steps(rng: &mut Rng, index: u64) -> Vec<Step> {
         } else if !subjects.is_empty() && rng.chance(1, 5) {
             // a predecessor that is a subject's twin under another output format
             twin_with_other_format(rng.pick(&subjects), rng)
+        } else if let Some(sib) = subjects.iter().find_map(|s| sibling_of(s, rng)).filter(|_| rng.chance(1, 2)) {
+            // a predecessor that is another input over the same files as a subject
+            sib
         } else {
             draw_item(rng)
         };
